@@ -151,6 +151,25 @@ static void do_op(int me, struct op *op)
 			struct cds_wfs_node *it, *tmp;
 			h = mode == M_LOCKED ? cds_wfs_pop_all_blocking(&ws) : __cds_wfs_pop_all(&ws);
 			wgl_end(&H, i, 0);
+			if (op->b & 1) {
+				/* non-blocking iteration: WOULDBLOCK while a push is half-way, never a short list */
+				for (it = cds_wfs_first(h); it != NULL; it = tmp) {
+					int spins = 0;
+					if (H.ops[i].nlist >= WGL_MAXLIST)
+						usim_fail("stack-iteration", "iteration over pop_all result does not terminate");
+					n = caa_container_of(it, struct snode, u.w);
+					wgl_list_add(&H, i, n->id);
+					got[ngot++] = n;
+					while ((tmp = cds_wfs_next_nonblocking(it)) == CDS_WFS_WOULDBLOCK) {
+						usim_probe("stack.iter_wouldblock");
+						if (++spins > 2000) {
+							tmp = cds_wfs_next_blocking(it);
+							break;
+						}
+						usim_pause();
+					}
+				}
+			} else
 			cds_wfs_for_each_blocking_safe(h, it, tmp) {
 				if (H.ops[i].nlist >= WGL_MAXLIST)
 					usim_fail("stack-iteration", "iteration over pop_all result does not terminate");
@@ -265,6 +284,7 @@ void scen_stacks(void)
 			struct op *op = &s->ops[i];
 			uint32_t r = rnd(100);
 			op->v = id++;
+			op->b = rnd(2);
 			if (!may_pop) op->kind = r < 80 ? OP_PUSH : OP_EMPTY;
 			else if (r < 38) op->kind = OP_PUSH;
 			else if (r < 58) op->kind = OP_POP;
